@@ -164,6 +164,7 @@ pub fn generate_c09(seed: u64, tier: &str, sink: &mut Sink) {
         // if the scripted chain is shorter than what would be followed, the run ends "out of hops":
         // the generator makes the last status terminal often enough; otherwise expect an I/O eof error
         let o: Result<(), (String, String)> = (|| {
+            obs.resend_check("chain")?;
             // bound
             if obs.hops.len() > max as usize + 1 {
                 return Err(("bound-exceeded".into(), format!("{} requests sent with max_redirections {}", obs.hops.len(), max)));
@@ -305,6 +306,7 @@ pub fn generate_chains(seed: u64, n: usize, proxy_focus: bool, tunnel_focus: boo
         let tag = body_tag(&case.body);
         let one_shot = tag == "custom-one-shot";
         let o: Result<(), (String, String)> = (|| {
+            obs.resend_check(&tag)?;
             if let Some(e) = &obs.prepare_error {
                 return Err((format!("prepare-{}", tag), e.clone()));
             }
